@@ -370,11 +370,21 @@ def tag_diff(case, f):
     if name == 'reduce' and f.kind == 'layout-dtype' and case['op']['args']['fn'] in ('sum', 'prod', 'cumsum', 'cumprod') \
             and any(b.dtype.kind in 'iub' and b.dtype.itemsize < 8 for b in case['rec']['blocks']):
         return 'narrow-int-reduction-dtype-depends-on-layout'
+    # ... and, when every column is a narrow integer / bool, the *value* too (it wraps in the narrow accumulator only)
+    if name == 'reduce' and f.kind == 'layout-value' and case['op']['args']['fn'] in ('sum', 'prod', 'cumsum', 'cumprod') \
+            and all(b.dtype.kind in 'iub' and b.dtype.itemsize < 8 for b in case['rec']['blocks']):
+        return 'narrow-int-reduction-dtype-depends-on-layout'
     # (ix) bool columns mixed with numeric ones: the row dtype is object and the axis-0 reduction runs on object arrays
     # whose shape follows the block shape (same root as the C15 finding on object row dtypes); only differences in
     # whether / how the call raises
-    if name == 'reduce' and case['op']['args']['axis'] == 0 and f.kind in ('layout-raise-vs-value', 'layout-raise-class') \
-            and any(b.dtype.kind == 'b' for b in case['rec']['blocks']) and any(b.dtype.kind in 'iufc' for b in case['rec']['blocks']):
+    mixes_bool = any(b.dtype.kind == 'b' for b in case['rec']['blocks']) and any(b.dtype.kind in 'iufc' for b in case['rec']['blocks'])
+    if name == 'reduce' and case['op']['args']['axis'] == 0 and f.kind in ('layout-raise-vs-value', 'layout-raise-class') and mixes_bool:
+        return 'reduction-over-bool-with-number-rows-depends-on-layout'
+    # ... along axis 1 the object rows are compared element by element, and the outcome of min / max over an object row
+    # holding NaN depends on the order in which NumPy meets the elements, which follows the block cuts
+    if name == 'reduce' and case['op']['args']['axis'] == 1 and mixes_bool and case['op']['args']['fn'] in ('min', 'max', 'median') \
+            and f.kind in ('layout-value', 'layout-raise-vs-value', 'layout-raise-class') \
+            and any(b.dtype.kind in 'fc' and bool(np.isnan(b).any()) for b in case['rec']['blocks']):
         return 'reduction-over-bool-with-number-rows-depends-on-layout'
     # (v) reductions over frames holding non-numeric columns (str, datetime64, timedelta64, object):
     # the row dtype and hence value type / error depends on consolidation (C15 restricts its own
@@ -402,11 +412,49 @@ def tag_coh(case, f):
     return None
 
 
+# ---------------------------------------------------------------------------------------------
+# single-row and two-row frames: every assignment of column kinds x every reduction x skipna x axis, in a consolidated
+# layout, in a layout of (n,1) 2-D blocks and (by check_diff itself) as 1-D blocks: the size-one short cuts live here
+
+LINE_KINDS = ('f_nan', 'f_val', 'int', 'f32_nan')
+
+
+def _line_col(kind, n, j):
+    if kind == 'f_nan':
+        a = np.array([2.5 + j + i for i in range(n)], dtype=np.float64)
+        a[0] = np.nan
+    elif kind == 'f_val':
+        a = np.array([1.5 + j + i for i in range(n)], dtype=np.float64)
+    elif kind == 'int':
+        a = np.array([3 + j + i for i in range(n)], dtype=np.int64)
+    else:
+        a = np.array([0.5 + j + i for i in range(n)], dtype=np.float32)
+        a[n - 1] = np.nan
+    return a
+
+
+def enum_lines(tier):
+    import itertools
+    shapes = [(1, 1), (1, 2), (1, 3), (2, 2)] if tier == 'quick' else [(1, 1), (1, 2), (1, 3), (1, 4), (2, 2), (2, 3)]
+    for (n, m) in shapes:
+        for kinds in itertools.product(LINE_KINDS, repeat=m):
+            cols = [_line_col(k, n, j) for j, k in enumerate(kinds)]
+            rec = {'blocks': gen.layout_consolidated(cols), 'index': {'kind': 'auto', 'labels': list(range(n)), 'name': None},
+                   'columns': {'kind': 'auto', 'labels': list(range(m)), 'name': None}, 'name': None}
+            lay2 = [c.reshape(n, 1) for c in cols]
+            for fn in ops.REDUCE:
+                for skipna in (True, False):
+                    for axis in (0, 1):
+                        yield {'rec': rec, 'lay2': lay2, 'op': {'op': 'reduce', 'args': {'fn': fn, 'axis': axis, 'skipna': skipna}}}
+
+
 SUBS = [
     Sub('layout_diff', diff_cases(), check_diff, quick=10000, thorough=80000, tag=tag_diff,
         rule='same columns, 3 layouts, one op: equal observations'),
     Sub('missing_layouts', missing_cases(), check_diff, quick=4000, thorough=32000, tag=tag_diff,
         rule='fills / drops / shifts / reductions on frames rich in missing values: same columns, 3 layouts, equal observations'),
+    Sub('line_layouts', None, check_diff, quick=0, thorough=0, tag=tag_diff, enum=enum_lines,
+        rule='complete enumeration: one- and two-row frames over 4 column kinds x every reduction x skipna x axis, 3 layouts, equal observations'),
     Sub('astype_layouts', astype_cases(), check_astype, quick=3200, thorough=24000,
         rule='astype[key](dtype) over 4 layouts vs the per-column dtype/value model (keys with gaps inside wide blocks)'),
     Sub('coherence', coh_cases(), check_coh, quick=2400, thorough=16000, tag=tag_coh,
